@@ -63,7 +63,7 @@ func firstWord(out string) string {
 // back ends to answer unsat before unsat is reported (thorough tier).
 // quickBackends: the back ends raced in the quick tier (z3 4.8.12 almost never answers first and costs a core).
 func activeBackends(needAgree int) []backend {
-	if needAgree > 1 {
+	if needAgree > 1 && os.Getenv("KVC_AUDIT") == "" {
 		return backends
 	}
 	var out []backend
@@ -139,6 +139,9 @@ func solveFile(file string, timeoutS int, seed int, needAgree int) SolveResult {
 		// fewer agreeing back ends than requested: report as unsat-by-one
 		res.Status = "unsat"
 		res.Backend = firstUnsat.name
+		if os.Getenv("KVC_AUDIT") != "" {
+			res.Backend = fmt.Sprintf("%s [audit: %d of %d back ends proved it]", firstUnsat.name, unsatN, len(res.All))
+		}
 		res.TimeS = firstUnsat.dt
 		res.Output = fmt.Sprintf("only %d back end(s) agreed", unsatN)
 		return res
